@@ -54,10 +54,10 @@ def drive(ctx, binary, args, timeout=600):
     return json.loads(lines[-1])
 
 
-def drive_parallel(ctx, binary, arglists, timeout=170):
+def drive_parallel(ctx, binary, arglists, timeout=170, jobs=4):
     """Several driver processes side by side (each under three minutes: a session's NIC monitor SIGTERMs a process that
     parses no IP frame for that long)."""
-    with concurrent.futures.ThreadPoolExecutor(max_workers=max(1, len(arglists))) as ex:
+    with concurrent.futures.ThreadPoolExecutor(max_workers=max(1, min(jobs, len(arglists)))) as ex:
         futs = [ex.submit(drive, ctx, binary, a, timeout) for a in arglists]
         return [f.result() for f in futs]
 
